@@ -37,7 +37,7 @@ __attribute__((used, visibility("default"))) const char *__ubsan_default_options
 const engine *engine_by_name(const char *name)
 {
     static const engine *all[] = { &eng_events, &eng_hheap, &eng_coro, &eng_procs,
-                                   &eng_mempool, &eng_rng, &eng_experiment, &eng_util };
+                                   &eng_mempool, &eng_rng, &eng_experiment, &eng_util, &eng_teardown };
     for (size_t i = 0; i < sizeof all / sizeof all[0]; i++)
         if (!strcmp(all[i]->name, name)) return all[i];
     die("unknown engine %s", name);
